@@ -4,6 +4,7 @@ package main
 
 import (
 	"fmt"
+	"go/constant"
 	"go/token"
 	"go/types"
 	"sort"
@@ -55,10 +56,11 @@ func (o Origin) String() string {
 }
 
 type originTracer struct {
-	p       *Program
-	depth   int
-	visited map[string]bool
-	work    int
+	p          *Program
+	depth      int
+	visited    map[string]bool
+	work       int
+	pruneConst bool // prune callee branches decided by constant boolean arguments
 }
 
 func (p *Program) newOriginTracer() *originTracer {
@@ -327,7 +329,50 @@ func (ot *originTracer) callOrigins(call *ssa.Call, result int, b *bindings, dep
 		}
 	}
 	var out []Origin
+	live := map[*ssa.BasicBlock]bool{}
+	if ot.pruneConst {
+		// reachability with branches on constant boolean arguments decided
+		constOf := func(v ssa.Value) (bool, bool) {
+			neg := false
+			if u, ok := v.(*ssa.UnOp); ok && u.Op == token.NOT {
+				v, neg = u.X, true
+			}
+			if p, ok := v.(*ssa.Parameter); ok {
+				if a, ok := nb.args[p]; ok {
+					if k, ok := a.(*ssa.Const); ok && k.Value != nil && k.Value.Kind() == constant.Bool {
+						return constant.BoolVal(k.Value) != neg, true
+					}
+				}
+			}
+			return false, false
+		}
+		stack := []*ssa.BasicBlock{callee.Blocks[0]}
+		for len(stack) > 0 {
+			b := stack[len(stack)-1]
+			stack = stack[:len(stack)-1]
+			if live[b] {
+				continue
+			}
+			live[b] = true
+			if len(b.Instrs) > 0 {
+				if iff, ok := b.Instrs[len(b.Instrs)-1].(*ssa.If); ok {
+					if val, known := constOf(iff.Cond); known {
+						if val {
+							stack = append(stack, b.Succs[0])
+						} else {
+							stack = append(stack, b.Succs[1])
+						}
+						continue
+					}
+				}
+			}
+			stack = append(stack, b.Succs...)
+		}
+	}
 	for _, blk := range callee.Blocks {
+		if ot.pruneConst && !live[blk] {
+			continue
+		}
 		for _, ins := range blk.Instrs {
 			if r, ok := ins.(*ssa.Return); ok && result < len(r.Results) {
 				out = append(out, ot.origins(r.Results[result], nb, depth+1)...)
